@@ -67,3 +67,39 @@ Lemma inplace_sites_known : inplace_sites =
    ("xeofs/utils/hilbert_transform.py", "_pad_exp", "y_ext", "Add");
    ("xeofs/utils/xarray_utils.py", "get_dims", "err_message", "Add")].
 Proof. reflexivity. Qed.
+
+(* every attribute that a post-fit method of a model or rotator class assigns (the `sorted` flag set by
+   _sort_by_variance) is assigned afresh by the class's own _fit_algorithm: a second fit of the same object starts
+   from the state a first fit starts from *)
+Definition assigns (c m : string) : list string := let '(a, _, _) := eff_of c m in a.
+Definition postfit_flags : list (string * string * string) :=
+  [("POP", "_sort_by_variance", "sorted"); ("EOFRotator", "_sort_by_variance", "sorted"); ("CPCCARotator", "_sort_by_variance", "sorted")].
+Definition flag_reset_by_fit (f : string * string * string) : bool :=
+  let '(c, m, a) := f in existsb (String.eqb a) (assigns c m) && existsb (String.eqb a) (assigns c "_fit_algorithm").
+Lemma postfit_flags_reset_by_fit : forallb flag_reset_by_fit postfit_flags = true.
+Proof. vm_compute. reflexivity. Qed.
+
+(* the complete list of methods outside the fit family (__init__, fit, _fit_algorithm, fit_transform) that write any
+   attribute of self, over all transformer, container, model and rotator classes: bookkeeping of a transform call, the
+   container's compute flags and the sort-after-compute flag - no caches, nothing a later answer could inherit *)
+Definition fit_family (m : string) : bool :=
+  existsb (String.eqb m) ["__init__"; "fit"; "_fit_algorithm"; "fit_transform"].
+Definition nonfit_writers : list (string * string * list string * list string) :=
+  map (fun e => (fst (fst (fst (fst e))), snd (fst (fst (fst e))), snd (fst (fst e)), snd (fst e)))
+      (filter (fun e => negb (fit_family (snd (fst (fst (fst e))))) &&
+                        negb (match (snd (fst (fst e)) ++ snd (fst e))%list with [] => true | _ => false end)) effects).
+Lemma nonfit_writers_known : nonfit_writers =
+  [("Preprocessor", "_set_return_list", ["return_list"], []);
+   ("MultiIndexConverter", "transform", [], ["coords_from_transform"]);
+   ("Stacker", "transform", [], ["coords_out"]);
+   ("Sanitizer", "transform", ["is_valid_feature"], []);
+   ("Concatenator", "transform", ["coords_out"], []);
+   ("DataContainer", "add", [], ["_allow_compute"]);
+   ("DataContainer", "__setitem__", [], ["_allow_compute"]);
+   ("POP", "_sort_by_variance", ["sorted"], ["data"]);
+   ("EOFRotator", "_sort_by_variance", ["sorted"], ["data"]);
+   ("CPCCARotator", "_sort_by_variance", ["sorted"], ["data"])].
+Proof. vm_compute. reflexivity. Qed.
+
+Definition writer_method_known (w : string * string * list string * list string) : bool :=
+  existsb (String.eqb (snd (fst (fst w)))) ["_set_return_list"; "transform"; "add"; "__setitem__"; "_sort_by_variance"].
